@@ -194,6 +194,10 @@ def run_property(prop, tier, seed, only=None, dump=None):
                                                             native=rf['native'], solver='all obligations discharged',
                                                             note='contract violated at run time although the proof '
                                                                  'went through: engine or model unsound'))
+                    # the real function breaks its contract on a concrete input although every obligation generated
+                    # from its text was discharged: something the extraction drops or a library model assumes away
+                    # (logger-call arguments, NaN, aliasing) matters here.  The violation itself is real and replayed.
+                    violations.append((path, ''))
                     disagreements.append('%s: proved but violated natively, see %s' % (u.short, path))
             continue
         # ---- something is not discharged
@@ -271,8 +275,9 @@ def run_property(prop, tier, seed, only=None, dump=None):
 
     # a caller proved against a callee contract that the callee's code breaks is violated natively too; that
     # is a consequence, reported at the callee -- a disagreement counts only when everything else is clean
-    if disagreements and not violations and not undecided:
-        crashes.extend(disagreements)
+    if disagreements:
+        for d_ in disagreements:
+            print('NOTE %s (an assumption of the extraction or of a library model does not hold for this input)' % d_)
 
     # ---- lemmas
     for lem in lemmas:
